@@ -46,26 +46,44 @@ def configs(tier, seed):
                 for writable in (True, False):
                     # the init image is an ITERABLE: handed over as list, tuple, generator, iterator or map object
                     form = ["list", "gen", "tuple", "iter", "map"][(len(out)) % 5]
-                    out.append({"size": size, "dw": dw, "gran": gran, "writable": writable, "pat": seed + 1, "init": form})
+                    # image length: full, short (rest reads zero), empty; optionally replaced later through `.init`
+                    length = ["full", "short", "full", "one", "empty"][(len(out) // 2) % 5]
+                    out.append({"size": size, "dw": dw, "gran": gran, "writable": writable, "pat": seed + 1, "init": form,
+                                "len": length, "reinit": [None, None, "short", "empty"][(len(out) // 3) % 4]})
     out.append({"size": 128, "dw": 8, "gran": 8, "writable": True, "pat": seed + 1, "init": "list"})
     out.append({"size": 256, "dw": 32, "gran": 8, "writable": True, "pat": seed + 1, "init": "gen"})
     return out
 
 
-def _pattern(cfg):
+def _cut(vals, how):
+    n = {"full": len(vals), "short": max(1, len(vals) // 3), "one": 1, "empty": 0}[how or "full"]
+    return vals[:n]
+
+
+def _pattern(cfg, final=True):
+    """final=True: the image the memory must hold after construction (and re-assignment), zero-filled."""
     rnd = random.Random(cfg["pat"] * 7919 + cfg["size"])
     depth = cfg["size"] * cfg["gran"] // cfg["dw"]
-    return [rnd.getrandbits(cfg["dw"]) | 1 for _ in range(depth)]
+    first = _cut([rnd.getrandbits(cfg["dw"]) | 1 for _ in range(depth)], cfg.get("len"))
+    second = None
+    if cfg.get("reinit"):
+        second = _cut([rnd.getrandbits(cfg["dw"]) | 1 for _ in range(depth)], cfg["reinit"])
+    if not final:
+        return first, second
+    img = second if second is not None else first
+    return list(img) + [0] * (depth - len(img))
 
 
 def maker(cfg):
     def make():
-        pat = _pattern(cfg)
+        pat, second = _pattern(cfg, final=False)
         form = cfg.get("init", "list")
         init = {"list": lambda: list(pat), "tuple": lambda: tuple(pat), "gen": lambda: (v for v in pat),
                 "iter": lambda: iter(pat), "map": lambda: map(int, pat)}[form]()
         dut = WishboneSRAM(size=cfg["size"], data_width=cfg["dw"], granularity=cfg["gran"],
                            writable=cfg["writable"], init=init)
+        if second is not None:
+            dut.init = second          # a new image through the public attribute replaces the old one entirely
         res = list(dut.wb_bus.memory_map.resources())
         md = res[0][0].data
         return Harness(dut, flat_ports(dut), dut=dut, md=md, mems=[(md, None)])
